@@ -61,8 +61,36 @@ def rule_sig(ctx):
             rref = [d.name for d in p.decorators(ref[op])]
             if b == "MemoryPathIO":
                 ok = ok and roles == rref
+            else:
+                # the executor backend adds its timeout and hand-off wrappers, nothing else may differ
+                ok = ok and [x for x in roles if x not in ("with_timeout", "_blocking_io")] == rref
+            # parameter defaults: a differing default (mkdir(parents=...), _open(mode=...)) makes the same server call behave differently per backend
+            def defaults(fa):
+                pos_ = [x.arg for x in fa.args]
+                d_ = {n_: src(v_) for n_, v_ in zip(pos_[len(pos_) - len(fa.defaults):], fa.defaults)}
+                d_.update({x.arg: src(v_) for x, v_ in zip(fa.kwonlyargs, fa.kw_defaults) if v_ is not None})
+                return d_
+            da, dr = defaults(a), defaults(r)
+            diff = {k_: (da[k_], dr[k_]) for k_ in da.keys() & dr.keys() if da[k_] != dr[k_]}
+            ctx.ob("C18.SIG", ms[op], f"{b}.{op}: parameter defaults equal PathIO's ({da})", not diff,
+                   f"{b}.{op}: default of {sorted(diff)} differs from PathIO.{op} ({diff}): the same server call creates parents / opens in another mode on this backend only",
+                   construct=f"{b}.{op}:defaults {sorted(diff)}")
             ctx.ob("C18.SIG", ms[op], f"{b}.{op}: signature/decorator roles compatible with PathIO.{op} ({roles})", ok,
                    f"{b}.{op}: signature or decorator roles differ from PathIO.{op} ({roles} vs {rref})", construct=f"{b}.{op}:sig")
+    # the abstract signature's defaults are the contract
+    for op in ops:
+        abst = p.methods("AbstractPathIO").get(op)
+        if abst is None or op not in ref:
+            continue
+        def defaults2(fa):
+            pos_ = [x.arg for x in fa.args]
+            d_ = {n_: src(v_) for n_, v_ in zip(pos_[len(pos_) - len(fa.defaults):], fa.defaults)}
+            d_.update({x.arg: src(v_) for x, v_ in zip(fa.kwonlyargs, fa.kw_defaults) if v_ is not None})
+            return d_
+        da, dr = defaults2(abst.args), defaults2(ref[op].args)
+        diff = {k_: (da[k_], dr[k_]) for k_ in da.keys() & dr.keys() if da[k_] != dr[k_]}
+        ctx.ob("C18.SIG", ref[op], f"PathIO.{op}: parameter defaults equal the abstract operation's", not diff,
+               f"PathIO.{op}: default of {sorted(diff)} differs from AbstractPathIO.{op} ({diff})", construct=f"PathIO.{op}:defaults {sorted(diff)}")
     ctx.floor("C18.SIG", 39)
 
 
